@@ -1231,15 +1231,6 @@ def g_bddtd(rng):
         rules.append((3, (1,), 1))
         rng.shuffle(rules)
         return f"bddtd {TA(rules, [0]).tok()}"
-    if rng.random() < 0.02:
-        # a rule of the LARGEST legal arity (63) and its neighbours: the 6-bit arity prefix of the top-down encoding at its limits
-        ar = rng.choice([63, 63, 62, 33, 32])
-        rules = [(0, (), 0), (1, (), 1), (2, tuple([0] * ar), 2), (3, (2,), 2)]
-        if rng.random() < 0.5:
-            rules.append((4, tuple([1] + [0] * (ar - 1)), 2))
-        A = TA(rules, [2])
-        B = TA([r for r in rules if r[0] != 4] + [(5, (0,), 1)], [2])
-        return f"bddtd {A.tok()} {B.tok()}"
     if rng.random() < 0.6:
         # the converted automaton meets a natively loaded one (intersection, union, inclusion in both directions)
         A, B, _ = rand_pair(rng, nmax=4)
